@@ -16,16 +16,16 @@ def g(fam, **kw):
     return ['%s:%s:%d' % (fam, name, n) for name, n in kw.items()]
 
 
-V1_QUICK = g('stream', v1good=150, v1corrupt=120, v1struct=120, v1len=15, v1junk=80, v1cr=60, bytes=40)
-V1_THOROUGH = g('stream', v1good=4000, v1corrupt=4000, v1struct=3000, v1len=300, v1junk=2500, v1cr=1500, bytes=1000)
-V2_QUICK = g('stream', v2good=120, v2corrupt=150, v2ctrl=700, v2len=330, v2sig=60, mixed=80, bytes=40)
-V2_THOROUGH = g('stream', v2good=3000, v2corrupt=4000, v2ctrl=65536, v2len=2500, v2sig=3060, mixed=2000, bytes=1000)
+V1_QUICK = g('stream', v1good=150, v1corrupt=120, v1struct=120, v1mutate=200, v1trunc=10, v1len=25, v1junk=80, v1cr=60, bytes=40)
+V1_THOROUGH = g('stream', v1good=4000, v1corrupt=4000, v1struct=3000, v1mutate=8000, v1trunc=300, v1len=400, v1junk=2500, v1cr=1500, bytes=1000)
+V2_QUICK = g('stream', v2good=120, v2corrupt=150, v2mutate=250, v2ctrl=700, v2len=330, v2sig=60, mixed=80, bytes=40)
+V2_THOROUGH = g('stream', v2good=3000, v2corrupt=4000, v2mutate=8000, v2ctrl=65536, v2len=2500, v2sig=3060, mixed=2000, bytes=1000)
 IPTEXT_QUICK = g('iptext', iprand=400)
 IPTEXT_THOROUGH = g('iptext', iprand=20000)
 TLV_QUICK = g('tlv', tlvrand=150, tlvtrunc=150, tlvbig=10, tlvmany=6)
 TLV_THOROUGH = g('tlv', tlvrand=6000, tlvtrunc=6000, tlvbig=56, tlvmany=100)
-BUILDER_QUICK = g('builder', bseq=120, bsetlen=120, btotal=10, bpairs=40)
-BUILDER_THOROUGH = g('builder', bseq=5000, bsetlen=5000, btotal=200, bpairs=1500)
+BUILDER_QUICK = g('builder', bseq=120, bsetlen=120, btotal=10, bpairs=40, bover=18)
+BUILDER_THOROUGH = g('builder', bseq=5000, bsetlen=5000, btotal=200, bpairs=1500, bover=360)
 
 
 def model(module, quick, thorough, need=(), workers=8, cap=None, tq=600, tt=3000):
@@ -46,7 +46,7 @@ MC_V2 = model('MC_StreamV2', 'MC_StreamV2_quick.cfg', 'MC_StreamV2_thorough.cfg'
               cap=dict(quick=300, thorough=4000))
 MC_TLV = model('MC_Tlv', 'MC_Tlv_quick.cfg', 'MC_Tlv_thorough.cfg', need=['kinds'], cap=dict(quick=1500, thorough=30000))
 MC_BUILDER = model('MC_Builder', 'MC_Builder_quick.cfg', 'MC_Builder_thorough.cfg', need=['built'],
-                   cap=dict(quick=600, thorough=15000), tt=7200)
+                   cap=dict(quick=30000, thorough=60000), tt=7200)
 MC_WRITER = model('MC_Writer', 'MC_Writer_quick.cfg', 'MC_Writer_thorough.cfg', need=['refused'])
 MC_FORMAT = model('MC_Format', 'MC_Format_quick.cfg', 'MC_Format_thorough.cfg', need=['len'], cap=dict(quick=800, thorough=20000))
 MC_MIXED = model('MC_Mixed', 'MC_Mixed_quick.cfg', 'MC_Mixed_thorough.cfg', need=['autotag'], cap=dict(quick=400, thorough=6000))
@@ -95,8 +95,8 @@ PROPS = {
              'first accept of a session that visited at least one proper prefix of that header; distinct = distinct headers+splits',
     ),
     'C06': dict(
-        gens=dict(quick=g('stream', mixed=200, v1good=80, v2good=80, v2corrupt=60, v1junk=60, bytes=60),
-                  thorough=g('stream', mixed=6000, v1good=2000, v2good=2000, v2corrupt=2000, v1junk=2000, bytes=2000)),
+        gens=dict(quick=g('stream', mixed=200, v1good=80, v1len=40, v1struct=40, v1mutate=100, v2mutate=150, v2good=80, v2corrupt=60, v1junk=60, bytes=60),
+                  thorough=g('stream', mixed=6000, v1good=2000, v1len=600, v1struct=1500, v1mutate=4000, v2mutate=4000, v2good=2000, v2corrupt=2000, v1junk=2000, bytes=2000)),
         models=[MC_MIXED, MC_V1, MC_V2],
         rule='every stream event (the three verdicts on the same buffer); non-trivial = non-empty buffer',
     ),
@@ -109,7 +109,7 @@ PROPS = {
     'C08': dict(
         gens=dict(quick=g('format', fmtshapes=220, fmtrand=300) + IPTEXT_QUICK + g('stream', v1good=100),
                   thorough=g('format', fmtshapes=6561, fmtrand=30000) + IPTEXT_THOROUGH + g('stream', v1good=3000)),
-        models=[MC_FORMAT],
+        models=[MC_FORMAT, MC_V1],
         rule='Display of address values (every zero-run shape in thorough, random pairs) parsed back through the four '
              'text entry points, plus Display of parsed headers; every event is non-trivial; distinct = distinct values',
     ),
@@ -169,14 +169,14 @@ PROPS = {
              'TLV (owned-copy clause, read after the input buffer was overwritten and dropped)',
     ),
     'C17': dict(
-        gens=dict(quick=g('stream', v2len=500, v2good=150), thorough=g('stream', v2len=6000, v2good=4000)),
+        gens=dict(quick=g('stream', v2len=500, v2good=150, v2mutate=150, v2corrupt=80), thorough=g('stream', v2len=6000, v2good=4000, v2mutate=4000, v2corrupt=2000)),
         models=[MC_V2],
         rule='truncated v2 headers delivered in chunks ending exactly at / before the declared length; non-trivial = '
              'an Incomplete or Partial verdict; distinct = distinct inputs',
     ),
     'C18': dict(
-        gens=dict(quick=g('stream', v1struct=300, v1len=40, v1cr=120, v1corrupt=100, v1junk=100),
-                  thorough=g('stream', v1struct=8000, v1len=600, v1cr=3000, v1corrupt=3000, v1junk=3000)),
+        gens=dict(quick=g('stream', v1struct=300, v1trunc=30, v1mutate=200, v1len=40, v1cr=120, v1corrupt=100, v1junk=100),
+                  thorough=g('stream', v1struct=8000, v1trunc=900, v1mutate=8000, v1len=600, v1cr=3000, v1corrupt=3000, v1junk=3000)),
         models=[MC_V1, MC_V1_LIVE],
         rule='stream events whose buffer has a byte after its first CR, or >= 107 bytes and no CR; distinct = distinct inputs',
     ),
